@@ -586,7 +586,10 @@ fn read_value_word(cur: &mut SourceCursor, song: &mut Song) -> Token {
         if func_val.is_some() {
             let func_id: SValue = func_val.unwrap_or(&SValue::from_i(0)).clone();
             tok.ttype = TokenType::CallUserFunction;
-            tok.tag = func_id.to_i();
+            tok.tag = match func_id {
+                SValue::UserFunc(id) => id as isize, // the function's index, not to_i() (= 0)
+                v => v.to_i(),
+            };
         }
         return tok;
     } else {
@@ -919,6 +922,7 @@ fn read_call_function(cur: &mut SourceCursor, song: &mut Song, func_id: usize) -
     cur.skip_space();
     let args: Vec<Token> = read_args_tokens(cur, song);
     let mut call_func_tok = Token::new(TokenType::CallUserFunction, func_id as isize, vec![]);
+    call_func_tok.tag = func_id as isize; // the runner dispatches on the tag
     call_func_tok.children = Some(args);
     call_func_tok
 }
